@@ -75,6 +75,9 @@ fn gen_spec(g: &mut Rng, id: &str, tier: Tier) -> RespSpec {
     if len == 0 && g.chance(1, 3) {
         spec.ctor = Ctor::Empty;
     }
+    if g.chance(1, 10) {
+        spec.ctor = Ctor::FromFile;
+    }
     if spec.ctor == Ctor::New {
         spec.pieces = match g.below(4) {
             0 => vec![1],
@@ -352,10 +355,11 @@ impl Campaign for C19c {
             steps.push(ClientStep::Send(B(Req::get(&id).bytes())));
             let text = *g.pick(&["plain ascii", "h\u{e9}llo w\u{f6}rld \u{2713}", "\u{65e5}\u{672c}\u{8a9e}\u{30c6}\u{30ad}\u{30b9}\u{30c8}", ""]);
             let mut spec = RespSpec::simple(200, text.as_bytes().to_vec());
-            spec.ctor = match g.below(4) {
+            spec.ctor = match g.below(5) {
                 0 => Ctor::FromString,
                 1 => Ctor::FromData,
                 2 => Ctor::New,
+                3 => Ctor::FromFile,
                 _ => {
                     spec.body = B(vec![]);
                     Ctor::Empty
